@@ -288,7 +288,13 @@ fn m_exec(ins: &Ins, inverse: bool, st: &mut Stack, ops: &mut [Coor4D]) -> bool 
                                 o[j] = col[i];
                             }
                         }
-                        None => return false,
+                        None => {
+                            // documented legacy behaviour: the element that cannot be popped becomes NaN, the step reports 0
+                            for o in ops.iter_mut() {
+                                o[j] = f64::NAN;
+                            }
+                            return false;
+                        }
                     }
                 }
             }
@@ -380,7 +386,6 @@ fn check_program(prog: &[Ins], fails: &mut Vec<String>, evaluated: &mut usize) {
         let mut ops = start;
         let mut ok = true;
         let order: Vec<&Ins> = if inverse { prog.iter().rev().collect() } else { prog.iter().collect() };
-        let mut legacy_underflow = false;
         let mut unspecified = false;
         for ins in order {
             // "swap on fewer than two elements is left unspecified": such programs are not judged
@@ -389,62 +394,85 @@ fn check_program(prog: &[Ins], fails: &mut Vec<String>, evaluated: &mut usize) {
                 break;
             }
             if !m_exec(ins, inverse, &mut st, &mut ops) {
+                // underflow: the step sets all operands to NaN (legacy pop: the element concerned), reports zero,
+                // leaves the stack alone; the program goes on with the next step
                 ok = false;
-                legacy_underflow = matches!(ins, Ins::LegacyPush(_) | Ins::LegacyPop(_));
-                break;
+                if !matches!(ins, Ins::LegacyPush(_) | Ins::LegacyPop(_)) {
+                    for o in ops.iter_mut() {
+                        *o = Coor4D([f64::NAN; 4]);
+                    }
+                }
             }
         }
         if unspecified {
             continue;
         }
         *evaluated += 1;
-        let mut bad = false;
-        if ok {
-            for i in 0..2 {
-                for k in 0..4 {
-                    bad |= !nan_eq(data[i][k], ops[i][k]);
-                }
-            }
-            bad |= r != 2 && !prog.is_empty();
-        } else if legacy_underflow {
-            // documented for the legacy pop: NaN in the element that could not be popped, zero successes
-            bad |= r != 0 || !(data[0].0.iter().any(|x| x.is_nan()));
-        } else {
-            bad |= r != 0;
-            for i in 0..2 {
-                for k in 0..4 {
-                    bad |= !data[i][k].is_nan();
-                }
-            }
-        }
+        let mut kinds: Vec<&str> = Vec::new();
+        let mut mismatch = false;
         for i in 0..2 {
             for k in 0..4 {
-                bad |= !nan_eq(data[i][k], again[i][k]);
+                mismatch |= !nan_eq(data[i][k], ops[i][k]);
             }
         }
-        bad |= r != r2;
-        if bad {
-            if fails.len() < 5 {
-                fails.push(format!("{:?} dir={} got {:?} count {} ; machine {:?} ok={}", prog, if inverse { "inv" } else { "fwd" }, data, r, ops, ok));
+        if mismatch {
+            kinds.push("machine-mismatch");
+        }
+        if ok {
+            if r != 2 && !prog.is_empty() {
+                kinds.push("count");
+            }
+        } else {
+            if r != 0 {
+                kinds.push("underflow-count");
+            }
+            // C10: a set reported with zero successes must not look valid: every tuple carries NaN
+            if data.iter().any(|c| c.0.iter().all(|x| !x.is_nan())) {
+                let legacy = prog.iter().any(|i| matches!(i, Ins::LegacyPush(_) | Ins::LegacyPop(_)));
+                kinds.push(if legacy { "zero-but-clean-legacy" } else { "zero-but-clean" });
+            }
+        }
+        let mut leak = r != r2;
+        for i in 0..2 {
+            for k in 0..4 {
+                leak |= !nan_eq(data[i][k], again[i][k]);
+            }
+        }
+        if leak {
+            kinds.push("stack-leak");
+        }
+        for kd in kinds {
+            if fails.iter().filter(|f| !f.is_empty()).count() < 5 {
+                fails.push(format!("{kd}: {:?} dir={} got {:?} count {} ; machine {:?} ok={}", prog, if inverse { "inv" } else { "fwd" }, data, r, ops, ok));
             } else {
                 fails.push(String::new());
             }
+            *FAILKINDS.lock().unwrap().entry(kd.to_string()).or_insert(0) += 1;
         }
     }
 }
+static FAILKINDS: std::sync::Mutex<std::collections::BTreeMap<String, usize>> = std::sync::Mutex::new(std::collections::BTreeMap::new());
 
-//@n {"id":"C12.N.programs","props":["C12","C02","C10","C09"],"tier":"quick","bound":"all stack programs of length 1 and 2, and all programs `push=1,2,3,4 | X | Y` of length 3, over 141 instructions (push/pop/flip with every index list of length 1-2 over 1..4 plus three longer ones, roll/unroll every (m,n) with |n|<m<=4, swap, a value-changing step, legacy push/pop with 5 flag sets); both directions; 2 tuples; every program applied twice","text":"through the real pipeline interpreter a stack program acts as the documented abstract machine: inverse = backwards with push/pop exchanged (lists reversed), roll/unroll exchanged, swap/flip unchanged; underflow => all operands NaN and zero successes; a second application starts from an empty stack"}
+//@n {"id":"C12.N.programs","props":["C12","C02","C10","C09"],"tier":"quick","bound":"all stack programs of length 1 and 2, and all programs `push=1,2,3,4 | X | Y` of length 3 (thorough tier: ALL programs of length 3), over 141 instructions (push/pop/flip with every index list of length 1-2 over 1..4 plus three longer ones, roll/unroll every (m,n) with |n|<m<=4, swap, a value-changing step, legacy push/pop with 5 flag sets); both directions; 2 tuples; every program applied twice","text":"through the real pipeline interpreter a stack program acts as the documented abstract machine: inverse = backwards with push/pop exchanged (lists reversed), roll/unroll exchanged, swap/flip unchanged; underflow => all operands NaN and zero successes; a second application starts from an empty stack"}
 #[test]
 fn verif_native_c12_programs() {
     let set = instruction_set();
     let mut fails = Vec::new();
     let mut evaluated = 0;
+    let thorough = std::env::var("VERIF_TIER").map(|t| t == "thorough").unwrap_or(false);
     for a in &set {
         check_program(&[a.clone()], &mut fails, &mut evaluated);
         for b in &set {
             check_program(&[a.clone(), b.clone()], &mut fails, &mut evaluated);
             check_program(&[Ins::Push(vec![1, 2, 3, 4]), a.clone(), b.clone()], &mut fails, &mut evaluated);
+            if thorough {
+                // thorough tier: all programs of length 3
+                for c in &set {
+                    check_program(&[a.clone(), b.clone(), c.clone()], &mut fails, &mut evaluated);
+                }
+            }
         }
     }
-    assert!(fails.is_empty(), "C12.N.programs: {} of {} evaluations disagree with the abstract machine, first: {:?}", fails.len(), evaluated, &fails[..fails.len().min(3)]);
+    let kinds: Vec<String> = FAILKINDS.lock().unwrap().iter().map(|(k, v)| format!("{k}:{v}")).collect();
+    assert!(fails.is_empty(), "C12.N.programs: FAILSET{{{}}} {} of {} evaluations fail, first: {:?}", kinds.join(","), fails.len(), evaluated, &fails[..fails.len().min(3)]);
 }
